@@ -1,6 +1,8 @@
 """C13 -- unacknowledged transfers tolerate EOF overtaking file data up to the check limit."""
 from __future__ import annotations
 
+from cfdppy.mib import EntityType
+
 from cfdppy.handler.dest import TransactionStep as DStep
 from cfdppy.handler.source import TransactionStep as SStep
 from spacepackets.cfdp import ChecksumType, ConditionCode
@@ -28,6 +30,8 @@ def h_dest(ctx, M, NMAX, ck="crc32", hiccup=False):
     S = sc.S
     ctx.assume(S <= M * L, S > (M - 1) * L)  # exactly M segments
     fs = sc.rig.fs
+    # the provider gives the two roles different intervals: the receiver's own interval (1 unit) counts
+    w.timer.intervals = {EntityType.SENDING: 3, EntityType.RECEIVING: 1}
     hic = {"n": 0, "used": False}
     if hiccup:
         # the user's filestore fails once (transient I/O error) while the file is re-verified
@@ -152,6 +156,7 @@ def h_sender(ctx):
     # closure may be requested by the remote entity's configuration or by the put request (overriding it)
     how = ctx.pick("closure_from", ["mib", "request_over_mib_false", "request_and_mib"])
     sc = hsrc.SrcScenario(ctx, w, mode=UNACK, closure=how != "request_over_mib_false", M=2)
+    w.timer.intervals = {EntityType.SENDING: 1, EntityType.RECEIVING: 3}
     sc.put(closure=None if how == "mib" else True)
     o = sc.sm()
     sc.remember_conf()
